@@ -20,6 +20,17 @@ def run(ck):
         raise vlib.InfraError("negative control (own-bucket lookup, the design before the fix) was not rejected: %s" % neg["verdict"])
     ck.ev.notes.append("negative control: the vertex-graph model with the own-bucket-only lookup (the defect fixed in /repo 0b215137) "
                        "violates OutlineExact, as expected")
+    dvg = vlib.build_driver("drv_vgraph", "dbg", internal=True)
+    tv = os.path.join(ck.tdir, "vgraph.ndjson")
+    d = vlib.run_driver(dvg, ["run", ck.tier, ck.seed, tv], timeout=1200)
+    if d["rc"] != 0:
+        raise vlib.InfraError("driver failed rc=%s %s" % (d["rc"], d["err"][-1500:]))
+    if '"vgraphAbsent"' in open(tv).readline():
+        ck.ev.notes.append("MODEL-DRIFT: vertexGraph.h is gone; the model -> code replay of H3VertexGraph was skipped")
+    ck.trace("vgraph-replay", "Trace_VGraph", "Trace.cfg", tv, nchunks=16, balance=True,
+             what="model -> code: scenarios of the vertex-graph model (2-3 synthetic cells sharing edges, bucket counts 2..24, base hash "
+                  "values concentrated on multiples of the bucket count, copies of a shared vertex 2e-12 rad apart across a hash "
+                  "boundary, random processing order) replayed into the real vertexGraph.c primitives; the edges left must be the outline")
     drv = vlib.build_driver("drv_lmp", "alloc")
     t = os.path.join(ck.tdir, "lmp.ndjson")
     d = vlib.run_driver(drv, ["run", ck.tier, ck.seed, t], timeout=3000)
